@@ -573,7 +573,7 @@ def budget(tier):
     if tier == 'quick':
         return {'runs': 60000, 'wall': 70, 'chunk': 200, 'selftest': 8, 'minimise_s': 60,
                 'canary_runs': 6000, 'canary_wall': 60}
-    return {'runs': 400000, 'wall': 1200, 'chunk': 100, 'selftest': 24, 'minimise_s': 180,
+    return {'runs': 400000, 'wall': 900, 'chunk': 100, 'selftest': 24, 'minimise_s': 180,
             'canary_runs': 6000, 'canary_wall': 60}
 
 
